@@ -123,7 +123,7 @@ def run(tier):
         check.cov["binding_selftest"] = "3 corrupted traces rejected"
     # (3) token facts on returned trees
     srcs = list(dict.fromkeys([c["src"] for c in lc] + extra))
-    for p in inputs.clean_programs(tier):
+    for p in inputs.programs(check, tier):
         srcs.append(p["src"].encode("latin-1"))
     # CR / CRLF renderings of the corpus (line rule)
     for c in inputs.corpus()[:: (4 if tier == "quick" else 1)]:
